@@ -17,13 +17,13 @@ structure View (p : PList) (xs : List Nat) (m : List Int) : Prop where
 /-- only values differ -/
 def SameLinks (p' p : PList) : Prop :=
   p'.next = p.next ∧ p'.prev = p.prev ∧ p'.begin = p.begin ∧ p'.size = p.size ∧ p'.free = p.free ∧
-    p'.nblocks = p.nblocks
+    p'.nblocks = p.nblocks ∧ p'.bk = p.bk
 
-theorem sameLinks_refl (p : PList) : SameLinks p p := ⟨rfl, rfl, rfl, rfl, rfl, rfl⟩
+theorem sameLinks_refl (p : PList) : SameLinks p p := ⟨rfl, rfl, rfl, rfl, rfl, rfl, rfl⟩
 theorem sameLinks_trans {a b c : PList} (h1 : SameLinks a b) (h2 : SameLinks b c) : SameLinks a c :=
   ⟨h1.1.trans h2.1, h1.2.1.trans h2.2.1, h1.2.2.1.trans h2.2.2.1, h1.2.2.2.1.trans h2.2.2.2.1,
-   h1.2.2.2.2.1.trans h2.2.2.2.2.1, h1.2.2.2.2.2.trans h2.2.2.2.2.2⟩
-theorem sameLinks_swapVal (p : PList) (a b : Nat) : SameLinks (swapVal p a b) p := ⟨rfl, rfl, rfl, rfl, rfl, rfl⟩
+   h1.2.2.2.2.1.trans h2.2.2.2.2.1, h1.2.2.2.2.2.1.trans h2.2.2.2.2.2.1, h1.2.2.2.2.2.2.trans h2.2.2.2.2.2.2⟩
+theorem sameLinks_swapVal (p : PList) (a b : Nat) : SameLinks (swapVal p a b) p := ⟨rfl, rfl, rfl, rfl, rfl, rfl, rfl⟩
 
 theorem view_swapVal (p : PList) (xs : List Nat) (m : List Int) (h : View p xs m) (i j : Nat)
     (hi : i < xs.length) (hj : j < xs.length) :
@@ -229,10 +229,10 @@ theorem setVals_map (xs : List Nat) (v v' : Nat → Int) :
 
 theorem rep_sameLinks (p p' : PList) (xs fs : List Nat) (s : LState) (h : Rep p xs fs s) (hs : SameLinks p' p) :
     Rep p' xs fs { s with nodes := LState.setVals s.nodes (xs.map p'.val) } := by
-  obtain ⟨e1, e2, e3, e4, e5, e6⟩ := hs
+  obtain ⟨e1, e2, e3, e4, e5, e6, e7⟩ := hs
   refine ⟨seg_congr p p' xs 0 none (fun x _ => ⟨by rw [e2], by rw [e1]⟩) h.seg, by rw [e2]; exact h.endp,
     by rw [e3]; exact h.beg, ?_, h.nd, ?_, h.free, by rw [e6]; exact h.nb, by rw [e4]; exact h.sz,
-    by rw [e6]; exact h.bound, by rw [e6]; exact h.cnt⟩
+    by rw [e6, e7]; exact h.bound, by rw [e6, e7]; exact h.cnt, by rw [e7]; exact h.bk, by rw [e7]; exact h.bkpos⟩
   · rw [e5]; exact freechain_congr p p' fs _ (fun x _ => by rw [e2]) h.fr
   · show LState.setVals s.nodes (xs.map p'.val) = _
     rw [h.nodes, setVals_map]
@@ -369,7 +369,7 @@ theorem insert_val_frame (p : PList) (pos : Nat) (v : Int) (p' : PList) (item : 
   unfold insert at h
   by_cases c : p.free.isNone
   · simp only [c, if_true] at h
-    have hf : (refill p).free = some (4 * p.nblocks + 4) := rfl
+    have hf : (refill p).free = some (p.bk * p.nblocks + p.bk) := rfl
     simp only [hf, Option.some.injEq, Prod.mk.injEq] at h
     rw [← h.1]
     show set (refill p).val _ v x = p.val x
